@@ -1,0 +1,43 @@
+//go:build verif && linux && !poll_opt
+
+package netpoll
+
+import (
+	"sync/atomic"
+
+	"golang.org/x/sys/unix"
+
+	"rcproxy/core/internal/queue"
+)
+
+// VerifRunAsync runs the queued tasks the way one "doChores" round of Polling does: every
+// urgent task, then at most max asynchronous tasks (Polling uses MaxAsyncTasksAtOneTime).
+// It returns the number of tasks run and the first error a task returned.
+func (p *Poller) VerifRunAsync(max int) (ran int, first error) {
+	_, _ = unix.Read(p.efd, p.efdBuf)
+	task := p.urgentAsyncTaskQueue.Dequeue()
+	for ; task != nil; task = p.urgentAsyncTaskQueue.Dequeue() {
+		if err := task.Run(task.Arg); err != nil && first == nil {
+			first = err
+		}
+		queue.PutTask(task)
+		ran++
+	}
+	for i := 0; i < max; i++ {
+		if task = p.asyncTaskQueue.Dequeue(); task == nil {
+			break
+		}
+		if err := task.Run(task.Arg); err != nil && first == nil {
+			first = err
+		}
+		queue.PutTask(task)
+		ran++
+	}
+	atomic.StoreInt32(&p.wakeupCall, 0)
+	return
+}
+
+// VerifPending reports whether asynchronous tasks are queued.
+func (p *Poller) VerifPending() bool {
+	return !p.asyncTaskQueue.IsEmpty() || !p.urgentAsyncTaskQueue.IsEmpty()
+}
